@@ -562,7 +562,7 @@ prop('C05',
      '(p=0.02/0.1/0.5) and PCT (d=1..3) schedules with a switch possible at every instrumented access; isr: 11 '
      'scenarios (empty / one byte / one free slot / full, across the wrap) x buf_len 2..5 x every start index with an '
      'interrupt of the opposite role doing 1-3 operations injected before every schedule point of put, putchar, get '
-     'and empty; thr: real producer/consumer threads on buf_len 2,3,4,5,7,17 under ASan+UBSan (the TSan twin is C07). '
+     'and empty; long (thorough tier only, ~2 min): 2^32+4096 bytes through rings of 3,5,6,7,9,10,11,12 bytes by put/get alone with 2 bytes always unread (anything counting bytes in 32 bits overflows with data in flight); thr: real producer/consumer threads on buf_len 2,3,4,5,7,17 under ASan+UBSan (the TSan twin is C07). '
      'Non-trivial = run containing a refused put and an empty get and a wrap of the indices; distinct by hash of the '
      'event log / schedule / placement.',
      [Stage('seq', ['harness/rb.c'], RING, preset='asan', nproc=16,
@@ -574,6 +574,9 @@ prop('C05',
       Stage('co', ['harness/rb.c'] + SHIM, RING, preset='shim', nproc=16, cflags=['-DRB_SHIM'],
             args={'quick': ['--extra', 'co'], 'thorough': ['--extra', 'co']},
             needs_min={'schedules_nontrivial': 10000, 'bytes_handed_over': 100000}),
+      Stage('long', ['harness/rb.c'], RING, preset='O2', nproc=8, tiers=('thorough',),
+            args={'thorough': ['--extra', 'long']},
+            needs_min={'bytes_through_the_ring': 1 << 32}, timeout={'quick': 1200, 'thorough': 3600}),
       Stage('thr-asan', ['harness/threads.c'], THR_ALL, preset='asan', nproc=2,
             args={'quick': ['--extra', 'ring'], 'thorough': ['--extra', 'ring']},
             needs_min={'ring_bytes_handed_over': 100000}, timeout={'quick': 600, 'thorough': 3600}),
